@@ -139,7 +139,7 @@ fn dj(d: &[(Universal2DBox, Option<f32>)]) -> serde_json::Value {
 
 pub fn run(tier: Tier) -> Report {
     let rep = Report::new("C14", tier);
-    rep.set_rule("every list of n <= 4 (quick) / 5 (thorough) boxes drawn with repetition from an 11-box menu (cluster of shifted boxes, nested, exact duplicate, rotated, disjoint, two corner overlaps, two invalid) x score patterns (all None; every distinct permutation of a prefix of {.9,.5,.5,.1,.7}) x nms threshold {.05,.2,.3,.5,.7} x score threshold {None, below, inside, above the scores, above every box height}; plus every list of 2-3 boxes from 7 elongated boxes that all carry the same non-zero angle (3 angles; offsets along and across the long side); plus every list of 2-3 boxes from a 5-box rotated cluster in which at least one box had its polygon generated (gen_vertices) before it was moved / turned in place; plus chain / ladder / grid families of k boxes for every k <= 40; plus an exact family: every list of 2 (thorough: 3) boxes from 60 axis-aligned boxes with dyadic corners and sizes x thresholds {1/8,1/4,1/2,3/4}, decided with zero margin (coverage exactly at the threshold must not suppress). Non-trivial = at least two valid boxes.");
+    rep.set_rule("every list of n <= 4 (quick) / 5 (thorough) boxes drawn with repetition from an 11-box menu (cluster of shifted boxes, nested, exact duplicate, rotated, disjoint, two corner overlaps, two invalid) x score patterns (all None; every distinct permutation of a prefix of {.9,.5,.5,.1,.7}) x nms threshold {.05,.2,.3,.5,.7} x score threshold {None, below, inside, above the scores, above every box height}; plus every list of 2-3 boxes from 6 small boxes at map coordinates (1e7; 448250 / 5411900), one f32 grid step apart; plus every list of 2-3 boxes from 7 elongated boxes that all carry the same non-zero angle (3 angles; offsets along and across the long side); plus every list of 2-3 boxes from a 5-box rotated cluster in which at least one box had its polygon generated (gen_vertices) before it was moved / turned in place; plus chain / ladder / grid families of k boxes for every k <= 40; plus an exact family: every list of 2 (thorough: 3) boxes from 60 axis-aligned boxes with dyadic corners and sizes x thresholds {1/8,1/4,1/2,3/4}, decided with zero margin (coverage exactly at the threshold must not suppress). Non-trivial = at least two valid boxes.");
     rep.assume("own coverage computation (engine/src/geom.rs); keep/drop decisions asserted outside a 1e-4 margin around the threshold");
     let m = menu();
     let nmax = tier.pick(4usize, 5usize);
@@ -307,6 +307,37 @@ pub fn run(tier: Tier) -> Report {
             lists += total as u64;
         }
         rep.extra("prepared_then_changed_lists", json!(lists));
+    }
+    // map coordinates: plain (angle None) 3x3 boxes at x = y = 1e7 and 1.5 m objects at (448250, 5411900), one
+    // f32 grid step apart: coverage 2/3, 1/3 ... decided by the usual margin
+    {
+        let mut lists = 0u64;
+        for (cx, cy, sp, w) in [(1e7f32, 1e7f32, 1.0f32, 3.0f32), (448250.0, 5411900.0, 0.5, 1.5)] {
+            for ang in [None, Some(0.0f32)] {
+                let mm: Vec<Universal2DBox> = [(0, 0), (1, 0), (2, 0), (1, 1), (0, 2), (5, 5)].iter().map(|(i, j)| Universal2DBox::new(cx + *i as f32 * sp, cy + *j as f32 * sp, ang, 1.0, w)).collect();
+                for n in 2..=3usize {
+                    let total = mm.len().pow(n as u32);
+                    par_for(total, 32, |code| {
+                        let mut k = code;
+                        let mut boxes = vec![];
+                        for _ in 0..n {
+                            boxes.push(mm[k % mm.len()].clone());
+                            k /= mm.len();
+                        }
+                        let dets: Vec<(Universal2DBox, Option<f32>)> = boxes.iter().enumerate().map(|(i, b)| (b.clone(), Some(0.9 - 0.2 * i as f32))).collect();
+                        for &nt in &[0.2f32, 0.5, 0.7] {
+                            evals.fetch_add(1, Ordering::Relaxed);
+                            nontrivial.fetch_add(1, Ordering::Relaxed);
+                            if let Err((key, what)) = judge(&dets, nt, None) {
+                                rep.violation(Violation { key: format!("{key}/map-coordinates"), what, replay: json!({"family":"map coordinates","detections":dj(&dets),"nms_threshold":nt}) });
+                            }
+                        }
+                    });
+                    lists += total as u64;
+                }
+            }
+        }
+        rep.extra("map_coordinate_lists", json!(lists));
     }
     // equally oriented boxes: elongated boxes that all carry the SAME non-zero angle (an oriented detector's
     // output for parallel objects); centres offset along and across the long side
